@@ -326,7 +326,13 @@ func fm(paths []string) *fieldmaskpb.FieldMask {
 }
 
 func newRealRes(cfg resCfg, clock *simClock, rng *simRNG) *realRes {
-	r := &realRes{cfg: cfg, clock: clock, rng: rng}
+	r := newRealResWith(cfg, clock, rng)
+	r.rng = rng
+	return r
+}
+
+func newRealResWith(cfg resCfg, clock *simClock, rng io.Reader) *realRes {
+	r := &realRes{cfg: cfg, clock: clock}
 	opts := []resource.Option{resource.WithClock(clock), resource.WithRNG(rng)}
 	if cfg.HasW {
 		opts = append(opts, resource.WithWritableFields(fm(cfg.W)))
@@ -686,7 +692,8 @@ func (m *model) apply(o wop, genID string) wres {
 				res.Code = codes.Aborted
 				return res
 			}
-			id = genID
+			// a generated id is an id like any other: the item must be reachable through it afterwards
+			id = m.mapID(genID)
 			res.ID = genID
 			res.IDCalls = 1
 		}
